@@ -10,10 +10,10 @@ import (
 func init() {
 	prop(&PropertySpec{
 		ID: "C02", Level: "other",
-		Rules: []string{"R02.1", "R02.2", "R02.4", "R02.5", "R14.1", "R14.4", "R01.1"},
+		Rules: []string{"R02.1", "R02.2", "R02.4", "R02.5", "R14.1", "R14.4", "R01.1", "R19.2"},
 		Explanation: "R02.1 every payload byte written comes from a single-line value or a protocol constant: every store into chunk.content is single-line (result 0 of parser.NextChunk, a parser-produced Field.Value, ...), and in the WriteTo family every argument of Write/writeString is a never-reassigned package-level constant, a single-line field, or a locally generated decimal buffer; the unsafe string->bytes view in writeString is only passed to Write; " +
 			"R02.2 each line writer performs exactly prefix, payload, newline in that order on its success path, Message.WriteTo writes every chunk by one call inside the range over its chunks and the terminating blank line only when something was written; R01.1 prefixes are name+\": \"; R02.4 retry is written as decimal milliseconds only when >= 1ms from a buffer of >= 13 digits, and both decoders multiply by time.Millisecond; " +
-			"R14.1/R14.4/R02.5 IDs and types are single-line and the single-line predicates have the required shape.",
+			"R14.1/R14.4/R02.5 IDs and types are single-line and the single-line predicates have the required shape; R19.2 a Clone shares no appendable storage with its original, so lines appended to one message cannot turn up in another.",
 		NotDecided: "that decoding the bytes yields exactly the LF-join of the appended lines (value equality); behaviour of a foreign spec-conforming parser; BOM/NUL inside data.",
 	})
 	prop(&PropertySpec{
@@ -773,6 +773,42 @@ func r15_4(c *Ctx) {
 		}
 	}
 	c.check(first, fnLabel(fn)+":reset-first", P.pos(fn.Pos()), "the receiver is reset before parsing", "UnmarshalText does not reset the receiver first: previous fields survive and the round trip is not exact")
+	// every `set` flag written while parsing is the constant true, next to the store of the field's value:
+	// a field line that was present (even with an empty value) must round-trip as set
+	nSet := 0
+	eachInstr(fn, func(in ssa.Instruction) {
+		st, ok := in.(*ssa.Store)
+		if !ok {
+			return
+		}
+		base, ok := isFieldSel(st.Addr, "messageField", "set")
+		if !ok {
+			return
+		}
+		nSet++
+		b, isC := constBool(st.Val)
+		valueStored := false
+		for _, x := range st.Block().Instrs {
+			if s2, ok := x.(*ssa.Store); ok {
+				if b2, ok := isFieldSel(s2.Addr, "messageField", "value"); ok && sameAddr(b2, base) {
+					valueStored = true
+				}
+			}
+		}
+		c.check(isC && b && valueStored, fnLabel(fn)+":set-flag", P.ipos(st), "a parsed id/event line marks the field set (constant true) together with its value", "the set flag of a parsed id/event field is not the constant true stored with its value: an empty `event:`/`id:` line does not round-trip (the message re-encodes differently)")
+	})
+	if nSet < 2 {
+		// constructors may be used instead of direct stores; accept stores through newMessageField-like calls
+		viaCtor := 0
+		eachInstr(fn, func(in ssa.Instruction) {
+			if _, ok := isModCall(in, "newMessageField", "NewID", "NewType"); ok {
+				viaCtor++
+			}
+		})
+		if nSet+viaCtor < 2 {
+			c.bad(fnLabel(fn)+":set-flag", P.pos(fn.Pos()), "UnmarshalText does not mark both the id and the event field as set when their lines are present")
+		}
+	}
 	// reset clears all four fields
 	rs := P.Fn("(*Message).reset")
 	if rs != nil {
